@@ -27,6 +27,17 @@ dispatched.  For such a case the schedule is derived from 'scn' (a state-depende
 line-number changes), 'dev' stays empty.  Oracle = the same `WakeSpec.onceFifo` on (fired, dispatched); cases of
 kind 'tick' are also replayed through the acceptor, cases of kind 'handler' are outside the modelled
 protocol (the model has no handler that fires) and are judged by the spec predicates only.
+
+Timer scenarios: a case with 'timer': 1 registers a real `circuits.Timer` with a very long interval, so that
+in every idle iteration the loop thread runs `event.reduce_time_left(T)` with T > 0 (handler without `resume`,
+priority above every waiter's) BEFORE the waiter, and the waiter takes its positive-time-out branch
+(`Event.wait(T)` / select / poll / epoll with time-out T).  Time-outs never expire in a run, so a wake-up
+that only the time-out would deliver is reported as `stuck(...)`.  Effects: `hsetWnoResume`, `lAcq`, `tlwOther`,
+`lRel` (accepted by the glue-level timer handler of CV/Drv/Wake.lean), then the model's positive branch.
+Directed kind 'rtl' (always with the timer): the loop thread is parked before the `point`-th line event of
+that `reduce_time_left(T > 0)` call (`occ`-th idle iteration; helpers it calls included) while the last firer
+fires `k` events, then resumed; the firer fires the rest of its plan.  Park points at which the loop thread
+holds the lock are kept (the firer then simply blocks on the lock: counted as not-reached).
 """
 import collections
 import heapq
@@ -76,6 +87,7 @@ class Ctl:
         self.cut = None
         self.end_obs = None
         self.expect_hread = {}
+        self.hread_idx = {}
         self.overrun = False
         self.directed = None
 
@@ -100,9 +112,29 @@ class Ctl:
         lock = '-' if o is None else ('L' if o == 0 else f'F{o}')
         return f'pend={pend} hk={hk} tl={tl} sig={self.sig()} lock={lock}'
 
-    def effect(self, me, label):
-        if me is not None and self.recording():
+    def effect(self, me, label, hread=False):
+        if me is None:
+            return
+        if not hread:
+            self.expect_hread[me] = False       # any other effect of the thread ends its series of handler reads
+            self.hread_idx.pop(me, None)
+        if self.recording():
             self.labels.append((me, label, self.abs_state()))
+            if hread:
+                self.hread_idx[me] = len(self.labels) - 1
+
+    def handler_read(self, me, label):
+        """`reduce_time_left` reads `event.handler` up to three times on different lines (`is not None`, then twice
+        to fetch `resume`) while the loop thread assigns `event.handler` without the lock: the effect is the LAST
+        read of the series (the one whose `resume` is called); an earlier read of the same series, which only
+        decided `is not None`, is withdrawn from the trace (reads do not change the abstract state)."""
+        i = self.hread_idx.pop(me, None)
+        if i is not None and i < len(self.labels) and self.cut is None:
+            del self.labels[i]
+            for t, j in list(self.hread_idx.items()):
+                if j > i:
+                    self.hread_idx[t] = j - 1
+        self.effect(me, label, hread=True)
 
 
 # ---------------------------------------------------------------------------------------
@@ -268,9 +300,8 @@ def make_traced(real_ge, real_manager, real_eq):
             me = c.me() if c else None
             if me is not None and c.expect_hread.get(me):
                 if _within(('reduce_time_left',)):
-                    c.expect_hread[me] = False
                     b = 1 if _has_resume(v) else 0
-                    c.effect(me, f'lHsetR {b}' if me == 0 else f'fHsetR {me} {b}')
+                    c.handler_read(me, f'lHsetR {b}' if me == 0 else f'fHsetR {me} {b}')
             return v
 
         def _set_h(self, v):
@@ -515,6 +546,8 @@ class Patched:
         self.append_code = real_eq.append.__code__
         # directed family only: the private helpers `append` calls are pre-emption points too
         self.helper_codes = helper_codes(M, real_eq, self.append_code, self.codes)
+        self.rtl_code = E.generate_events.reduce_time_left.__code__
+        self.rtl_helper_codes = helper_codes(E, E.generate_events, self.rtl_code, self.codes + self.helper_codes)
         return self
 
     def __exit__(self, *a):
@@ -579,24 +612,29 @@ class Directed:
         self.points = []
         self.broken = None
 
-    def matches(self, evt):
+    def matches(self, arg):
         if self.kind == 'tick':
-            return isinstance(evt, TGe)
-        return getattr(evt, 'name', None) == 'own'
+            return isinstance(arg, TGe)
+        if self.kind == 'rtl':
+            return isinstance(arg, (int, float)) and arg > 0
+        return getattr(arg, 'name', None) == 'own'
 
     def on_loop_line(self, px, code, line):
         """called for every line event of the loop thread (before the scheduling point of that line)"""
-        fr = _append_frame(px, code)
-        if fr is None:
+        if self.kind == 'rtl':
+            fr = _root_frame(px.rtl_code, px.rtl_helper_codes, code)
+        else:
+            fr = _root_frame(px.append_code, px.helper_codes, code)
+        if fr is None or (self.phase == 2 and fr is not self.seen_ev):
             if self.phase == 2:
-                self.phase = 3          # the loop thread's append has returned
+                self.phase = 3          # the loop thread's append / reduce_time_left call has returned
             return
         names = fr.f_code.co_varnames
-        evt = fr.f_locals.get(names[1]) if len(names) > 1 else None
-        if not self.matches(evt):
+        arg = fr.f_locals.get(names[1]) if len(names) > 1 else None     # the event / the new time left
+        if not self.matches(arg):
             return
-        if evt is not self.seen_ev:
-            self.seen_ev = evt
+        if fr is not self.seen_ev:
+            self.seen_ev = fr           # (the frame is kept alive, so `is` identifies the call)
             self.count += 1
         if self.count != self.occ:
             return
@@ -609,8 +647,8 @@ class Directed:
         if self.phase in (0, 4):
             return default
         F = self.F
-        if self.phase == 1 and sum(1 for t, _i in c.fired if t == F) > self.k:
-            self.phase = 2              # F is at the first line of its (k+1)-th fire()
+        if self.phase == 1 and (sum(1 for t, _i in c.fired if t == F) > self.k or c.sched.th[F].state == 'done'):
+            self.phase = 2              # F is at the first line of its (k+1)-th fire(), or has fired everything
         if self.phase == 3 and c.sched.th[F].state == 'done':
             self.phase = 4
             return default
@@ -626,15 +664,16 @@ class Directed:
                 'points': self.points}
 
 
-def _append_frame(px, code):
-    """the frame of the `_EventQueue.append` call the current line event (of `code`) belongs to, or None"""
-    if code is not px.append_code and not any(code is h for h in px.helper_codes):
+def _root_frame(root, helpers, code):
+    """the frame of the call of `root` (`_EventQueue.append` / `reduce_time_left`) the current line event (of
+    `code`: root itself or one of its private helpers) belongs to, or None"""
+    if code is not root and not any(code is h for h in helpers):
         return None
     f = sys._getframe(3)        # on_loop_line <- line_cb <- the monitored frame
     for _ in range(5):
         if f is None:
             return None
-        if f.f_code is px.append_code:
+        if f.f_code is root:
             return f
         f = f.f_back
     return None
@@ -648,7 +687,7 @@ class RunResult:
     pass
 
 
-def run_one(px, mode, plan, dev=None, chooser=None, max_steps=6000, scn=None):
+def run_one(px, mode, plan, dev=None, chooser=None, max_steps=6000, scn=None, timer=False):
     """px: active Patched(); returns RunResult"""
     global CTL
     from circuits import BaseComponent, Event, handler
@@ -663,6 +702,7 @@ def run_one(px, mode, plan, dev=None, chooser=None, max_steps=6000, scn=None):
     c.directed = directed
     CTL = c
     fires_own = directed is not None and directed.kind == 'handler'
+    timer = bool(timer) or (directed is not None and directed.kind == 'rtl')
 
     class ev(Event):
         pass
@@ -683,6 +723,12 @@ def run_one(px, mode, plan, dev=None, chooser=None, max_steps=6000, scn=None):
     c.m = m
     c.lock = m._lock
     Rec().register(m)
+    if timer:
+        from circuits.core.timers import Timer
+
+        class tock(Event):
+            """the timer's event (never fired: the interval is ~11 days)"""
+        Timer(1.0e6, tock(), persist=True).register(m)
     if mode == 'select':
         P.Select().register(m)
     elif mode == 'poll':
@@ -744,7 +790,8 @@ def run_one(px, mode, plan, dev=None, chooser=None, max_steps=6000, scn=None):
         return body
 
     err = None
-    with S.LineHooks(px.codes + (px.helper_codes if directed is not None else []), line_cb):
+    extra_codes = [] if directed is None else (px.rtl_helper_codes if directed.kind == 'rtl' else px.helper_codes)
+    with S.LineHooks(px.codes + extra_codes, line_cb):
         sch.spawn(loop_body)
         for t, k in enumerate(plan, start=1):
             sch.spawn(firer_body(t, k), pred=lambda: c.loop_in_tick, what='start')
@@ -775,6 +822,7 @@ def run_one(px, mode, plan, dev=None, chooser=None, max_steps=6000, scn=None):
     r.directed = directed.summary() if directed is not None else None
     # kind 'handler' is outside the modelled protocol: judged by the spec predicates only
     r.accept = not fires_own
+    r.timer = timer
     return r
 
 
@@ -818,6 +866,13 @@ def describe_directed(case, r):
     F = len(case['plan'])
     pts = r.directed['points']
     at = pts[scn['point']] if scn['point'] < len(pts) else '?'
+    if scn['kind'] == 'rtl':
+        return (f" [directed schedule{'' if r.directed['reached'] else ' (NOT reached: ' + str(r.directed['broken']) + ')'}"
+                f": the loop thread, in the Timer's generate_events handler (idle iteration {scn['occ']}), is "
+                f"pre-empted inside event.reduce_time_left(T > 0) before line event #{scn['point']} ({at}, "
+                f"function+line offset); thread {F} fires {min(scn['k'], case['plan'][-1])} event(s); the loop thread "
+                f"completes reduce_time_left and runs the waiter; thread {F} fires "
+                f"{max(case['plan'][-1] - scn['k'], 0)} more]")
     who = ('tick() firing generate_events (%s. time)' % scn['occ'] if scn['kind'] == 'tick'
            else 'the handler of ev(1, 0) firing an event of its own')
     return (f" [directed schedule{'' if r.directed['reached'] else ' (NOT reached: ' + str(r.directed['broken']) + ')'}: "
@@ -866,7 +921,10 @@ def judge(ctx, case, r, ans):
         ctx.violate(case, f"stuck({mode}-{eo['what']})",
                     f"loop thread blocked in its idle {eo['what']} with {eo['pend']} event(s) queued, wake signal "
                     f"unset and no other thread able to run (fired {r.fired}, dispatched so far "
-                    f"{eo.get('dispatched_before')}; only the harness-forced time-out lets the run continue)")
+                    f"{eo.get('dispatched_before')}; only the harness-forced time-out lets the run continue)"
+                    + (' [a Timer is registered: the wait has the positive time-out the Timer asked for, the '
+                       'event stays queued until that time-out expires]' if r.timer else '')
+                    + describe_directed(case, r))
     elif r.dead:
         ctx.violate(case, f'deadlock({mode})', f'no thread can run and the run cannot end: loop {eo}, firers '
                     f"{eo and eo['firers']}")
@@ -900,6 +958,7 @@ class Batch:
             if not r.accept:
                 self.ctx.count('judged_by_spec_only', r.mode)
             self.ctx.count('mode', r.mode)
+            self.ctx.count('timer_registered', 'yes' if r.timer else 'no')
             self.ctx.count('plan', '+'.join(map(str, r.plan)))
             self.ctx.count('preemptions', len(r.applied))
             self.ctx.count('effects_per_run', (len(r.labels) // 50) * 50)
@@ -914,23 +973,29 @@ class Batch:
 def do_case(px, case):
     if case.get('scn'):
         return run_one(px, case['mode'], case['plan'], scn=case['scn'])     # the schedule is derived from 'scn'
-    return run_one(px, case['mode'], case['plan'], case['dev'])
+    return run_one(px, case['mode'], case['plan'], case['dev'], timer=case.get('timer'))
 
 
-DIRECTED_SCN = (('tick', 1), ('tick', 2), ('handler', 1))
+DIRECTED_SCN = (('tick', 1), ('tick', 2), ('handler', 1), ('rtl', 1), ('rtl', 2))
 
 
 def directed_family(ctx, px, batch):
-    """the loop thread parked at every line of its own `_EventQueue.append` in turn, while a firer fires k events;
-    then the loop thread completes the append and the firer fires d more (see the module docstring).
+    """the loop thread parked at every line of its own `_EventQueue.append` (kinds tick, handler) resp. of the
+    Timer's `reduce_time_left(T > 0)` (kind rtl) in turn, while a firer fires k events; then the loop thread
+    completes that call and the firer fires d more (see the module docstring).
     Runs completely in both tiers (not subject to the exploration deadline)."""
-    ks, ds = ((2, 3), (1, 2)) if ctx.tier == 'quick' else ((2, 3, 4), (1, 2, 3))
     groups = {}
     for mode in MODES:
         for kind, occ in DIRECTED_SCN:
-            # ('tick', 1): the first tick (queue busy), one firer.  Otherwise firer 1 fires the single event that
-            # wakes the idle loop (and whose handler fires, kind 'handler'); the last firer does the burst.
-            lead = [] if (kind, occ) == ('tick', 1) else [1]
+            if kind == 'rtl':
+                # the loop thread parked inside the Timer's reduce_time_left(T > 0) of the occ-th idle iteration
+                ks, ds = ((1, 2), (0, 1)) if ctx.tier == 'quick' else ((1, 2, 3), (0, 1, 2))
+            else:
+                ks, ds = ((2, 3), (1, 2)) if ctx.tier == 'quick' else ((2, 3, 4), (1, 2, 3))
+            # ('tick', 1), ('rtl', 1): the first tick / idle iteration, one firer.  Otherwise firer 1 fires the
+            # single event that wakes the idle loop (and whose handler fires, kind 'handler'); the last firer
+            # does the burst.
+            lead = [] if (kind, occ) in (('tick', 1), ('rtl', 1)) else [1]
             g = f'{kind}{occ}/{mode}'
             probe = {'mode': mode, 'plan': lead + [ks[0] + ds[0]], 'dev': [],
                      'scn': {'kind': kind, 'occ': occ, 'point': None, 'k': ks[0]}}
@@ -992,20 +1057,22 @@ def children(r, after=-1):
     return out
 
 
-def explore(ctx, px, batch, mode, plan, level2, level3, deadline_hit):
-    base_case = {'mode': mode, 'plan': plan, 'dev': []}
+def explore(ctx, px, batch, mode, plan, level2, level3, deadline_hit, timer=False):
+    tm = {'timer': 1} if timer else {}
+    tag = f"{mode}{'+timer' if timer else ''}/{'+'.join(map(str, plan))}"
+    base_case = {'mode': mode, 'plan': plan, 'dev': [], **tm}
     r0 = do_case(px, base_case)
     batch.add(base_case, r0, nontrivial=False)
     lvl1 = []
     for (s, t) in children(r0):
         if deadline_hit():
             return
-        case = {'mode': mode, 'plan': plan, 'dev': [[s, t]]}
+        case = {'mode': mode, 'plan': plan, 'dev': [[s, t]], **tm}
         r = do_case(px, case)
         case['dev'] = r.applied
         batch.add(case, r)
         lvl1.append(r)
-    ctx.count('level1_exhaustive', f"{mode}/{'+'.join(map(str, plan))}", len(lvl1))
+    ctx.count('level1_exhaustive', tag, len(lvl1))
     # two pre-emptions: children of the level-1 runs (all of them when level2 is None)
     pool = []
     for r in lvl1:
@@ -1021,12 +1088,12 @@ def explore(ctx, px, batch, mode, plan, level2, level3, deadline_hit):
     for applied, s, t in pool:
         if deadline_hit():
             return
-        case = {'mode': mode, 'plan': plan, 'dev': applied + [[s, t]]}
+        case = {'mode': mode, 'plan': plan, 'dev': applied + [[s, t]], **tm}
         r = do_case(px, case)
         case['dev'] = r.applied
         batch.add(case, r)
         lvl2.append(r)
-    ctx.count('level2_' + ('exhaustive' if full else 'sampled'), f"{mode}/{'+'.join(map(str, plan))}", len(lvl2))
+    ctx.count('level2_' + ('exhaustive' if full else 'sampled'), tag, len(lvl2))
     pool3 = []
     for r in lvl2:
         if len(r.applied) < 2:
@@ -1037,7 +1104,7 @@ def explore(ctx, px, batch, mode, plan, level2, level3, deadline_hit):
         for applied, s, t in ctx.rng.sample(pool3, min(level3, len(pool3))):
             if deadline_hit():
                 return
-            case = {'mode': mode, 'plan': plan, 'dev': applied + [[s, t]]}
+            case = {'mode': mode, 'plan': plan, 'dev': applied + [[s, t]], **tm}
             r = do_case(px, case)
             case['dev'] = r.applied
             batch.add(case, r)
@@ -1056,8 +1123,9 @@ def random_runs(ctx, px, batch, n, modes, deadline_hit):
             if len(enabled) > 1 and rng.random() < p:
                 return rng.choice(enabled)
             return default
-        r = run_one(px, mode, plan, chooser=chooser)
-        case = {'mode': mode, 'plan': plan, 'dev': r.applied}
+        timer = rng.random() < 0.3
+        r = run_one(px, mode, plan, chooser=chooser, timer=timer)
+        case = {'mode': mode, 'plan': plan, 'dev': r.applied, **({'timer': 1} if timer else {})}
         batch.add(case, r)
 
 
@@ -1093,8 +1161,11 @@ def run(ctx):
         'Manager._currently_handling, _EventQueue._counter, deque subclass, heappop wrapper)',
     ]
     ctx.assumptions += [
-        'all events have priority 0; no timers/tasks (time_left is -1 or 0: the model\'s positive-time-out '
-        'branch is proved but not exercised by the correspondence)',
+        'all events have priority 0; no tasks; the only timer is one circuits.Timer with a very long interval '
+        '(cases with timer=1 and the directed kind rtl): the loop thread lowers time_left to a positive value '
+        'before the waiter, which exercises the model\'s positive-time-out branch (waitPos / pSel with a positive '
+        'time-out); the Timer handler itself (hsetWnoResume, lAcq, tlwOther, lRel) is accepted by a glue-level '
+        'extension in CV/Drv/Wake.lean, not by CV.Model.Wake, and is therefore outside the theorems',
         'time-outs of the idle wait never expire during a run (that is the property); the run is ended by the '
         'harness once every thread is blocked or finished',
     ]
@@ -1120,10 +1191,14 @@ def run(ctx):
             explore(ctx, px, batch, 'poll', [1], 60, 0, deadline_hit)
             explore(ctx, px, batch, 'epoll', [1], 60, 0, deadline_hit)
             explore(ctx, px, batch, 'fallback', [1, 1], 150, 30, deadline_hit)
+            for mode in MODES:
+                explore(ctx, px, batch, mode, [1], 40, 0, deadline_hit, timer=True)
             random_runs(ctx, px, batch, 250, MODES, deadline_hit)
         else:
             for mode in MODES:
                 explore(ctx, px, batch, mode, [1], None, 600, deadline_hit)
+            for mode in MODES:
+                explore(ctx, px, batch, mode, [1], 1500, 200, deadline_hit, timer=True)
             random_runs(ctx, px, batch, 4000, MODES, deadline_hit)
             for mode in MODES:
                 explore(ctx, px, batch, mode, [1, 1], 1000, 300, deadline_hit)
